@@ -214,7 +214,7 @@ def decide_job(group, obligations, assumptions=(), timeout_ms=60000, sample_name
             b.add_unsat(ob[0], ob[1])
     b.run()
     out = {'group': group, 'n': len(b.results), 'unsat': 0, 'sat': [], 'unknown': [], 'solver_s': b.solver_s,
-           'queries': b.queries, 'samples': [], 'extra': extra or {}}
+           'queries': b.queries, 'samples': [], 'extra': extra or {}, 'second': dict(b.second)}
     for r in b.results:
         if r.verdict == 'unsat':
             out['unsat'] += 1
@@ -237,6 +237,11 @@ def _absorb_job(self, res):
     self.discharged += res['unsat']
     self.solver_s += res['solver_s']
     self.queries += res['queries']
+    if res.get('second'):
+        acc = self.extra.setdefault('second_opinion_cvc5', {'checked': 0, 'agree': 0, 'disagree': 0, 'no_answer': 0, 'seconds': 0.0,
+                                                            'what': 'the first and the middle obligation of every batch are re-decided by cvc5 (QF_NRA) on the SMT-LIB text of the z3 query; a contradiction makes the obligation inconclusive'})
+        for k in ('checked', 'agree', 'disagree', 'no_answer', 'seconds'):
+            acc[k] = round(acc[k] + res['second'].get(k, 0), 3)
     for u in res['unknown']:
         self.inconclusive.append({'name': '%s :: %s' % (res['group'], u['name']), 'info': u['info']})
     for s in res['samples'][:1]:
